@@ -8,6 +8,7 @@
 //   - ch <- v, <-ch, close(ch) as statements -> sched.ChanSend/ChanRecv/ChanClose(ch) spliced in front
 //   - select { ... }        -> switch sched.Select(hasDefault, cases...) { case i: <real op>; body }
 //   - time.Sleep/Now/Tick, net.ListenUDP, net.UDPConn, signal.Notify -> venv seams
+//   - make(chan T, <literal>) -> make(chan T, venv.QCap(<literal>)) (queue capacity is an environment parameter)
 //   - func main             -> renamed (package main only, on request)
 //
 // Anything it cannot handle faithfully (a receive buried in an expression, range over a
@@ -398,6 +399,18 @@ func main() {
 		}
 		// seams (before statement rewriting; counts remaining uses of each import)
 		ast.Inspect(f, func(n ast.Node) bool {
+			// queue capacities are an environment parameter: make(chan T, <literal>) -> make(chan T, zzvenv.QCap(<literal>))
+			// (the harness may scale them down; QCap returns its argument otherwise)
+			if ce, ok := n.(*ast.CallExpr); ok && len(ce.Args) == 2 {
+				if id, ok := ce.Fun.(*ast.Ident); ok && id.Name == "make" {
+					if _, ok := ce.Args[0].(*ast.ChanType); ok {
+						if lit, ok := ce.Args[1].(*ast.BasicLit); ok && lit.Kind == token.INT {
+							ce.Args[1] = call(sel("zzvenv", "QCap"), lit)
+							usedVenv = true
+						}
+					}
+				}
+			}
 			if se, ok := n.(*ast.SelectorExpr); ok {
 				if id, ok := se.X.(*ast.Ident); ok && id.Obj == nil {
 					if to, ok := seams[id.Name+"."+se.Sel.Name]; ok && (imported[id.Name] == "time" || imported[id.Name] == "net" || imported[id.Name] == "os/signal") {
